@@ -62,6 +62,41 @@ func (vc *VC) preambleOpt(flags map[int]bool, qfOnly bool) string {
 	return sb.String()
 }
 
+// header: options, declarations and candidate flags only.
+func (vc *VC) header(flags map[int]bool) string {
+	var sb strings.Builder
+	sb.WriteString("(set-option :produce-models true)\n(set-logic ALL)\n")
+	for _, d := range vc.decls {
+		sb.WriteString(d)
+		sb.WriteByte('\n')
+	}
+	for _, c := range vc.cands {
+		if flags[c.ID] {
+			fmt.Fprintf(&sb, "(assert %s)\n", c.Flag)
+		} else {
+			fmt.Fprintf(&sb, "(assert (not %s))\n", c.Flag)
+		}
+	}
+	return sb.String()
+}
+
+func (vc *VC) slicedAsserts(sl *slicer, o *Oblig) string {
+	inc := sl.slice(o.Guard, o.Goal)
+	var sb strings.Builder
+	for i, a := range vc.asserts {
+		if inc[i] {
+			sb.WriteString("(assert ")
+			sb.WriteString(a)
+			sb.WriteString(")\n")
+		}
+	}
+	return sb.String()
+}
+
+func (vc *VC) slicedQuery(sl *slicer, o *Oblig, k int) string {
+	return fmt.Sprintf("(push 1)\n%s(assert %s)\n(assert (not %s))\n(echo \"@@%d\")\n(check-sat)\n(pop 1)\n", vc.slicedAsserts(sl, o), o.Guard, o.Goal, k)
+}
+
 func obligQuery(o *Oblig, k int) string {
 	return fmt.Sprintf("(push 1)\n(assert %s)\n(assert (not %s))\n(echo \"@@%d\")\n(check-sat)\n(pop 1)\n", o.Guard, o.Goal, k)
 }
@@ -175,6 +210,7 @@ type SolveOpts struct {
 // candidate flags.
 func solveUnit(vc *VC, opts SolveOpts) map[int]bool {
 	primary := solvers[0]
+	sl := newSlicer(vc)
 	flags := map[int]bool{}
 	for _, c := range vc.cands {
 		flags[c.ID] = true
@@ -189,11 +225,11 @@ func solveUnit(vc *VC, opts SolveOpts) map[int]bool {
 	if len(vc.cands) > 0 {
 		for round := 0; round < 12; round++ {
 			var sb strings.Builder
-			sb.WriteString(vc.preamble(flags))
+			sb.WriteString(vc.header(flags))
 			var idx []int
 			for i, o := range vc.obligs {
 				if o.Cand >= 0 && flags[o.Cand] && o.Status != "unsat" {
-					sb.WriteString(obligQuery(o, i))
+					sb.WriteString(vc.slicedQuery(sl, o, i))
 					idx = append(idx, i)
 				}
 			}
@@ -219,6 +255,15 @@ func solveUnit(vc *VC, opts SolveOpts) map[int]bool {
 	}
 	// real obligations
 	pre := vc.preamble(flags)
+	hdr := vc.header(flags)
+	// vacuity: some return must be reachable under the hypotheses
+	if vc.cover != "" && vc.cover != "false" {
+		q := vc.preambleOpt(flags, true) + "(echo \"@@0\")\n(assert " + vc.cover + ")\n(check-sat)\n"
+		r := runScript(primary, q, 1, 2000)
+		vc.coverSt = r[0].status
+	} else if vc.cover == "false" {
+		vc.coverSt = "no-return"
+	}
 	var sb strings.Builder
 	sb.WriteString(pre)
 	var idx []int
@@ -248,9 +293,9 @@ func solveUnit(vc *VC, opts SolveOpts) map[int]bool {
 		}
 		var cs strings.Builder
 		cs.WriteString("(set-option :smt.mbqi false)\n")
-		cs.WriteString(pre)
+		cs.WriteString(hdr)
 		for _, i := range idx[lo:hi] {
-			cs.WriteString(obligQuery(vc.obligs[i], i))
+			cs.WriteString(vc.slicedQuery(sl, vc.obligs[i], i))
 		}
 		res := runScript(primary, cs.String(), hi-lo, 2000)
 		for _, i := range idx[lo:hi] {
@@ -286,10 +331,41 @@ func solveUnit(vc *VC, opts SolveOpts) map[int]bool {
 		wg.Add(1)
 		go func(o *Oblig) {
 			defer wg.Done()
-			recheck(vc, pre, o, opts)
+			// first on the sliced hypothesis set, then on the full one
+			recheck(vc, hdr+vc.slicedAsserts(sl, o), o, opts)
+			if o.Status != "unsat" {
+				recheck(vc, pre, o, opts)
+			}
+			if o.Status != "unsat" && o.Model == "" {
+				// candidate counterexample from the quantifier-free weakening of the
+				// hypotheses (to be confirmed by replay on the real code)
+				var values []string
+				for _, d := range vc.decls {
+					f := strings.Fields(d)
+					if len(f) >= 4 && f[2] == "()" && (strings.HasPrefix(f[1], "p_") || strings.HasPrefix(f[1], "fv_") || f[1] == "alloc0") && (f[3] == "Int" || f[3] == "Bool") {
+						values = append(values, f[1])
+					}
+				}
+				st, model, _, _ := singleQuery(solvers[0], vc.preambleOpt(flags, true), o, 5000, values)
+				if st == "sat" {
+					o.Model = model
+					o.Note += "[candidate model from the quantifier-free weakening of the hypotheses]\n"
+				}
+			}
 		}(o)
 	}
 	wg.Wait()
+	if opts.DumpDir != "" {
+		for _, i := range idx {
+			o := vc.obligs[i]
+			if o.Status != "unsat" {
+				q := pre + fmt.Sprintf("(assert %s)\n(assert (not %s))\n(check-sat)\n", o.Guard, o.Goal)
+				os.WriteFile(filepath.Join(opts.DumpDir, sanitize(o.Name)+".smt2"), []byte(q), 0o644)
+				q2 := hdr + vc.slicedAsserts(sl, o) + fmt.Sprintf("(assert %s)\n(assert (not %s))\n(check-sat)\n", o.Guard, o.Goal)
+				os.WriteFile(filepath.Join(opts.DumpDir, sanitize(o.Name)+".sliced.smt2"), []byte(q2), 0o644)
+			}
+		}
+	}
 	return flags
 }
 
